@@ -1,6 +1,6 @@
 #!/bin/bash
 # Build librime from /repo's CURRENT WORKING TREE, out of tree, into /verif/.build/<flavour>.
-# Flavours: san (ASan+UBSan), tsan, plain.  All define RIME_VERIF (hooks on).
+# Flavours: san (ASan+UBSan), tsan, plain, cov (gcov instrumentation, used to measure what the correspondence runs execute).  All define RIME_VERIF (hooks on).
 # Usage: build_librime.sh <flavour> [repo_dir]
 set -euo pipefail
 FLAV="${1:?flavour}"
@@ -15,6 +15,7 @@ case "$FLAV" in
   san)   FLAGS="-O1 -g -fno-omit-frame-pointer -fsanitize=address,undefined -fno-sanitize-recover=all -DRIME_VERIF -Wno-error" ; LFLAGS="-fsanitize=address,undefined" ;;
   tsan)  FLAGS="-O1 -g -fno-omit-frame-pointer -fsanitize=thread -DRIME_VERIF -Wno-error" ; LFLAGS="-fsanitize=thread" ;;
   plain) FLAGS="-O1 -g -DNDEBUG -DRIME_VERIF -Wno-error" ; LFLAGS="" ;;
+  cov)   FLAGS="-O0 -g --coverage -DRIME_VERIF -Wno-error" ; LFLAGS="--coverage" ;;
   *) echo "unknown flavour $FLAV" >&2; exit 2 ;;
 esac
 exec 9>"$HERE/.build/$FLAV$SUF.lock"
